@@ -61,6 +61,38 @@ theorem mdpp_probe_never_offered (i : Inst) (hm : i.multi = true) {as : List Nat
     (h : Run env i (env.reset i) as s) (j : Nat) (hp : i.probe j = true) : env.mask i s j = false := by
   rw [mask_eq_history i h j]; simp [allowed0, hm, hp]
 
+/-- MDPP needs no instance contract: `_reset` clears the probing ports itself. -/
+theorem mdpp_quota (i : Inst) (hm : i.multi = true) (hq : 1 ≤ i.quota)
+    (hc : i.quota ≤ cnt i.n (allowed0 i)) {as : List Nat} {s : State}
+    (h : RunND env i (env.reset i) as s) (hd : env.done i s = true) :
+    (as.length : Int) = i.quota ∧ as.Nodup ∧
+      ∀ a ∈ as, a < i.n ∧ i.avail a = true ∧ i.probe a = false :=
+  quota i ⟨hq, hc, Or.inl hm⟩ h hd
+
+/-! #### Single-port DPP on an instance that is not pre-masked — FINDING
+
+`DPPEnv._reset` copies `td["action_mask"]` and never looks at `td["probe"]`.  For an instance whose
+mask encodes the keep-out layout only (hand-supplied / dataset instance, probing port given in the
+`probe` field) the port is offered and a decap can be placed on it.  `quota` above is the partial
+theorem (hypothesis `ProbeMasked`, which the bundled generator establishes). -/
+
+/-- Full statement: whatever the instance mask, a complete DPP episode never uses the probing port. -/
+def dpp_probe_free_statement : Prop :=
+  ∀ (i : Inst) (as : List Nat) (s : State), i.multi = false → 1 ≤ i.quota →
+    i.quota ≤ cnt i.n (allowed0 i) → RunND env i (env.reset i) as s → env.done i s = true →
+    ∀ a ∈ as, i.probe a = false
+
+/-- witness: two free cells, cell 0 is the probing port, quota 1: `[0]` is a complete episode -/
+def cexUnmasked : Inst := ⟨2, 1, fun _ => true, fun j => j = 0, false⟩
+
+theorem dpp_probe_free_counterexample : ¬ dpp_probe_free_statement := by
+  intro h
+  have hrun : RunND env cexUnmasked (env.reset cexUnmasked) [0]
+      (exec env cexUnmasked (env.reset cexUnmasked) [0]) :=
+    RunND.cons (by decide) (by decide) (by decide) (RunND.nil _)
+  have := h cexUnmasked [0] _ rfl (by decide) (by decide) hrun (by decide) 0 (by simp)
+  exact absurd this (by decide)
+
 /-! #### The constructors -/
 
 /-- **C08 (MDPP), required number**: `MDPPEnv` steps with the quota its generator was configured with,
